@@ -186,7 +186,7 @@ def minimise(pool, engine_mod, case, key, prop, budget_runs=400, budget_s=60):
 
 
 def write_replay(prop, key, case, detail, seed, minimise_runs):
-    d = os.path.join(env.VERIF_DIR, 'replays', prop)
+    d = os.path.join(os.environ.get('PONYSIM_OUT_DIR', env.VERIF_DIR), 'replays', prop)
     os.makedirs(d, exist_ok=True)
     head, dirty = env.repo_head()
     path = os.path.join(d, hsh(key) + '.json')
@@ -260,8 +260,9 @@ def finish(col, pool, engine_mod_for, coverage_extra=None, assumptions=None, com
         'coverage': cov, 'assumptions': assumptions or [], 'wall_s': round(wall, 3),
         'violations': len(reported),
     }
-    os.makedirs(os.path.join(env.VERIF_DIR, 'evidence'), exist_ok=True)
-    with open(os.path.join(env.VERIF_DIR, 'evidence', prop + '.json'), 'w') as f:
+    evdir = os.path.join(os.environ.get('PONYSIM_OUT_DIR', env.VERIF_DIR), 'evidence')
+    os.makedirs(evdir, exist_ok=True)
+    with open(os.path.join(evdir, prop + '.json'), 'w') as f:
         json.dump(ev, f, indent=1, sort_keys=True, default=repr)
     print('%s tier=%s seed=%d evaluations=%d distinct_nontrivial=%d wall=%.1fs faults=%d known=%d'
           % (prop, col.tier, col.seed, col.evaluations, len(col.nontrivial_sigs), wall,
